@@ -14,6 +14,16 @@ CLAIMED = {
          'collections as lists; isinstance/issubclass as membership in a finite class universe. No axioms (Closed under the global context).',
     technique='Coq proof (induction on fuel / lists, Permutation) + per-run model-vs-implementation correspondence by vm_compute',
     ref='DESIGN.md section 5, C14'),
+  'C16': dict(
+    text='Theorems about a Gallina model of flatten_dict/unflatten_dict (written from the code: DFS with relative paths, insertion-ordered dict, the '
+         'unflatten cursor loop) proved for every well-formed nested dict of any depth and every is_leaf: exact round trip with keep_empty_nodes, round trip up '
+         'to pruning of leafless sub-dicts without it, path_aware_map = structural map, separator-joined keys for every single-byte separator absent from the '
+         'keys (split (join p) = p), and the State set laws on flat states (merge: later wins; merge inverse of split; a - b exact). Tied to /repo per run by '
+         'evaluating the model in Coq on the flat dicts and round-trip results the real functions produced.',
+    note='Trusted: Coq kernel, vm_compute, harness, jaxcompat. Not proved (correspondence/oracle only): flatten(unflatten f)=f, sortedness of to_flat_state, '
+         'pure-dict conversions. Known findings F10 (root declared leaf), F13 (multi-char separators) refuted by theorem and listed; F1, F18 fixed. No axioms.',
+    technique='Coq proof (nested tree induction, list lemmas) + per-run model-vs-implementation correspondence by vm_compute',
+    ref='DESIGN.md section 5, C16'),
 }
 REASON_UNBUILT = 'check not built yet in this round (planned: see DESIGN.md section 5); nothing is claimed for it'
 
